@@ -276,12 +276,12 @@ def shard_derived(args):
 def shard_exotic(args):
     tier, seed, idx = args
     acc = Acc(seed=seed)
-    specs = C.exotic_specs() + C.huge_specs() + C.scale_specs(tier == "thorough")
+    specs = C.exotic_specs() + C.huge_specs() + C.scale_specs(tier == "thorough") + [C.adjacent_colour_pairs(), C.adjacent_colour_pairs((("bold", True),)), C.adjacent_colour_pairs((("invert", True), ("underline", True)))]
     for si in range(idx, len(specs), 32):
         spec = specs[si]
         f = C.build(spec)
         want = C.spec_cells(spec)
-        case = {"kind": "exotic", "f": C.show_spec(spec)}
+        case = {"kind": "exotic", "f": C.show_spec(spec) if len(spec) <= 60 else {"runs": len(spec), "first_runs": C.show_spec(spec[:6])}}
         acc.case(True, key=("x", si), sample=case)
         for rnd in range(2):  # rendered twice: the memoised string must equal the first rendering
             shown, final, non_sgr, unknown = sgr.interpret(str(f))
